@@ -13,6 +13,8 @@ def run(tier):
     common.dfuzz(rep, binary, PROP, cases, 3000 if tier != "thorough" else 60000)
     # (growth) the same Incomplete / Needed contract over a whole run: the streaming consumer of Stream.tla on DTLS records
     common.stream_runs(rep, binary, PROP, ["parse_dtls_plaintext_record"], 3, thorough=(tier == "thorough"))
+    common.len_sweep(rep, binary, PROP)
+    common.huge_buffers(rep, binary, PROP, fns=("parse_dtls_plaintext_record", "parse_dtls_record_header", "parse_dtls_message_handshake"))
     return rep.finish("model_checking",
                       "cases = DTLS records over a grid of content types, epochs {0,1,0x0102,0xffff}, sequence numbers up to 2^48-1, "
                       "payload pools, every prefix cut and trailing bytes, the cap boundary; handshake headers over the fragment grid "
